@@ -75,12 +75,30 @@ def _sg_closure(assertions, buggy):
 
 def c18_closure_contraction(stream, case, detail):
     """Independencies.closure: the contraction rule fires with extra conditioning variables and never when Z is empty.
-    Claimed only when the implementation's answer is exactly what that faulty rule produces."""
+    Claimed only when (1) the faulty rule gives a different closure than the semi-graphoid axioms for these assertions,
+    (2) the implementation's closure is exactly what the faulty rule produces and (3) for entails / is_equivalent
+    reports, the implementation's verdict is the one that follows from that faulty closure."""
     if not stream.startswith("closure") or not isinstance(detail, dict) or "got" not in detail:
         return False
     got = {(frozenset([frozenset(a), frozenset(b)]), frozenset(c)) for a, b, c in detail["got"]}
     emu = _sg_closure(case["assertions"], buggy=True)
-    return got == emu
+    if got != emu:
+        return False
+    msg = str(detail.get("msg", ""))
+
+    def canon(t):
+        return (frozenset([frozenset(t[0]), frozenset(t[1])]), frozenset(t[2]))
+    if msg.startswith("entails:") or msg.startswith("is_equivalent:"):
+        other = case.get("other", [])
+        ent_bug = all(canon(t) in emu for t in other)
+        impl = "impl True" in msg
+        if msg.startswith("entails:"):
+            return impl == ent_bug and ent_bug != all(canon(t) in _sg_closure(case["assertions"], buggy=False) for t in other)
+        back_bug = all(canon(t) in _sg_closure(other, buggy=True) for t in case["assertions"])
+        back_ok = all(canon(t) in _sg_closure(other, buggy=False) for t in case["assertions"])
+        ent_ok = all(canon(t) in _sg_closure(case["assertions"], buggy=False) for t in other)
+        return impl == (ent_bug and back_bug) and (ent_bug and back_bug) != (ent_ok and back_ok)
+    return emu != _sg_closure(case["assertions"], buggy=False)
 
 
 def c18_minimal_imap(stream, case, detail):
